@@ -329,13 +329,15 @@ def specMatmulShape (sa sb : Shape) : Option Shape :=
 /-- `np.matmul` element: `out[β…, i, j] = Σ_k a[β_a…, i, k] · b[β_b…, k, j]` with `β` broadcast to each operand's batch
     shape; the `i` (resp. `j`) coordinate is absent when lhs (resp. rhs) is 1-d -/
 def specMatmulTerms (sa sb : Shape) (d : Idx) : List Term :=
-  let k := sa.getLast?.getD 0
-  let nb := d.length - (if sa.length = 1 then 0 else 1) - (if sb.length = 1 then 0 else 1)
-  let β := d.take nb
-  let i := if sa.length = 1 then [] else (d[nb]?).toList
-  let j := if sb.length = 1 then [] else d.getLast?.toList
-  (List.range k).map (fun kk =>
-    (bcIdx β (batchOf sa) ++ i ++ [kk], bcIdx β (batchOf sb) ++ [kk] ++ j))
+  match sa.getLast? with
+  | none => []
+  | some k =>
+    let nb := d.length - (if sa.length = 1 then 0 else 1) - (if sb.length = 1 then 0 else 1)
+    let β := d.take nb
+    let i := if sa.length = 1 then [] else (d[nb]?).toList
+    let j := if sb.length = 1 then [] else d.getLast?.toList
+    (List.range k).map (fun kk =>
+      (bcIdx β (batchOf sa) ++ i ++ [kk], bcIdx β (batchOf sb) ++ [kk] ++ j))
 
 def specMatmul (sa sb : Shape) : Option (Arr (List Term)) :=
   (specMatmulShape sa sb).map (fun sh => ⟨sh, specMatmulTerms sa sb⟩)
